@@ -732,33 +732,105 @@ SUPPORTED_COMMANDS = {
     "zcard", "zrange", "zrevrange", "zrangebyscore", "zrevrangebyscore", "xadd", "xrange", "xrevrange"}
 
 
+def assigned_names(stmts):
+    """names assigned (plainly, through an index, or by table.sort) anywhere inside the statements"""
+    out = set()
+
+    def visit(s, _):
+        if s[0] == "assign":
+            for t in s[1]:
+                if t[0] == "name":
+                    out.add(t[1])
+                elif t[0] == "index" and t[1][0] == "name":
+                    out.add(t[1][1])
+        elif s[0] == "callstat":
+            c = s[1]
+            if c[1] == ("index", ("name", "table"), ("str", "sort")) and c[2] and c[2][0][0] == "name":
+                out.add(c[2][0][1])
+    walk_stmts(stmts, visit)
+    return out
+
+
+def split_chunks(ast):
+    """top-level statement list → chunks: every compound statement (if / for) is a chunk of its own, runs of
+    simple statements in between are grouped"""
+    chunks, cur = [], []
+    for st in ast:
+        if st[0] in ("if", "fornum", "forin"):
+            if cur:
+                chunks.append(cur)
+                cur = []
+            chunks.append([st])
+        else:
+            cur.append(st)
+    if cur:
+        chunks.append(cur)
+    return chunks or [[]]
+
+
 def translate(name, src):
-    """Lua source → Lean module text defining `CentrifugeVerif.Gen.Lua.<name>`."""
+    """Lua source → Lean module text defining `CentrifugeVerif.Gen.Lua.<name>`.
+
+    The top-level statement sequence is cut into parts `<name>_p0 … <name>_pN` (one per top-level compound
+    statement / run of simple statements); part i takes KEYS, ARGV and the top-level locals declared so far
+    and ends by calling part i+1.  This keeps every definition small, so that proofs can execute the script
+    symbolically part by part."""
+    import hashlib
     ast = parse(src)
     check_alias(ast)
-    em = Emitter()
-    em.block(ast, 1)
-    if not ast or ast[-1][0] != "return":
-        em.out(1, "return LVal.nil")
-    unknown = sorted(em.commands - SUPPORTED_COMMANDS)
+    chunks = split_chunks(ast)
+    commands, dynamic = set(), False
+    # top-level locals in scope at the start of each chunk
+    scope = []
+    scopes = []
+    for ch in chunks:
+        scopes.append(list(scope))
+        for st in ch:
+            if st[0] == "local":
+                for n in st[1]:
+                    if n not in scope:
+                        scope.append(n)
+    scopes.append(list(scope))
+    defs = []
+    for idx, ch in enumerate(chunks):
+        em = Emitter()
+        params = scopes[idx]
+        for n in sorted(assigned_names(ch) & set(params), key=params.index):
+            em.out(1, f"let mut {em.var(n)} : LVal := {em.var(n)}")
+        for st in ch:
+            em.stmt(st, 1)
+        last = idx == len(chunks) - 1
+        if last:
+            if not ch or ch[-1][0] != "return":
+                em.out(1, "return LVal.nil")
+        else:
+            args = " ".join(em.var(n) for n in scopes[idx + 1])
+            em.out(1, f"{name}_p{idx + 1} KEYS ARGV {args}".rstrip())
+        commands |= em.commands
+        dynamic = dynamic or em.dynamic_commands
+        ps = " ".join(f"({em.var(n)} : LVal)" for n in params)
+        head = f"def {name}_p{idx} (KEYS ARGV : LVal) {ps}".rstrip() + " : RedisM LVal := do"
+        defs.append("\n".join([head] + em.lines))
+    unknown = sorted(commands - SUPPORTED_COMMANDS)
     if unknown:
         raise Unsupported(f"Redis commands not in the model: {unknown}")
-    import hashlib
     head = [
         "import CentrifugeVerif.Model.LuaRedis",
         "/-",
         f"GENERATED by props/C18/lua2lean.py from internal/redis_lua/{name}.lua — do not edit.",
         f"source sha1: {hashlib.sha1(src.encode()).hexdigest()}",
-        f"redis commands (literal): {' '.join(sorted(em.commands))}"
-        + ("  (+ a command name taken from a variable)" if em.dynamic_commands else ""),
+        f"redis commands (literal): {' '.join(sorted(commands))}"
+        + ("  (+ a command name taken from a variable)" if dynamic else ""),
+        f"parts: {len(chunks)}",
         "-/",
         "set_option linter.unusedVariables false",
         "namespace CentrifugeVerif.Gen.Lua",
         "open CentrifugeVerif CentrifugeVerif.Lua CentrifugeVerif.LuaRedis",
         "",
-        f"def {name} (KEYS ARGV : LVal) : RedisM LVal := do",
     ]
-    return "\n".join(head + em.lines + ["", "end CentrifugeVerif.Gen.Lua", ""])
+    body = "\n\n".join(reversed(defs))
+    entry = f"\n\ndef {name} (KEYS ARGV : LVal) : RedisM LVal := {name}_p0 KEYS ARGV\n"
+    return "\n".join(head) + body + entry + "\nend CentrifugeVerif.Gen.Lua\n"
 
 
 def modname(script):
